@@ -724,6 +724,10 @@ from ..selftest import Seed, unparse_seed  # noqa: E402
 _CT = "src/odfdo/container.py"
 _DOC = "src/odfdo/document.py"
 SEEDS = [
+    Seed("get_part constructs the part from another name than its cache key", "fault", "src/odfdo/document.py",
+         "            self.__xmlparts[path] = part = cls(path, self.container)", "            self.__xmlparts[path] = part = cls(path.strip(), self.container)", "R03n"),
+    Seed("get_part files the part in two statements", "neutral", "src/odfdo/document.py",
+         "            self.__xmlparts[path] = part = cls(path, self.container)", "            part = cls(path, self.container)\n            self.__xmlparts[path] = part"),
     Seed("the zip loader does not keep large members", "fault", _CT,
          "                self.__parts[upath] = zf.read(name)\n                return self.__parts[upath]",
          "                data = zf.read(name)\n                if len(data) <= 1 << 24:\n                    self.__parts[upath] = data\n                return data", "R03m"),
